@@ -22,12 +22,12 @@ ValidPool == {r \in {Rec(p, u, ps, us, NoPat) : p \in PPool, u \in UPool, ps \in
 \* Wide = TRUE: every record with at most one synonym per side as argument AND as starting converter (used with MaxOps = 1:
 \* wide and shallow); Wide = FALSE: the narrow pools below (deep)
 OneSyn == {r \in ValidPool : r.ps = {} \/ r.us = {}}
-NoB(r) == r.u # <<3>> /\ <<3>> \notin r.us            \* the deep instance does without the fourth URI string
+\* the deep instance does without the fourth URI string and without the length-changing fold pair
+NoB(r) == r.u # <<3>> /\ <<3>> \notin r.us /\ r.p \in {<<1>>, <<2>>} /\ r.ps \subseteq {<<1>>, <<2>>}
 ArgPool == IF Wide THEN OneSyn ELSE IF Tier = "quick"
            THEN {r \in ValidPool : r.ps = {} /\ r.us = {} /\ NoB(r)}
                 \cup {r \in ValidPool : r.us = {} /\ r.ps = {<<2>>} /\ r.p = <<1>>}
                 \cup {r \in ValidPool : r.ps = {} /\ r.us = {<<2>>} /\ r.u = <<1>>}
-                \cup {r \in ValidPool : r.us = {} /\ r.ps = {<<7, 7>>} /\ r.p = <<6>> /\ r.u = <<1, 3>>}
            ELSE {r \in ValidPool : r.ps = {} /\ r.us = {}}
                 \cup {r \in ValidPool : r.us = {} /\ r.ps # {} /\ r.p \in {<<>>, <<1>>}}
                 \cup {r \in ValidPool : r.ps = {} /\ r.us # {} /\ r.u = <<1>>}
@@ -39,7 +39,7 @@ MCNext ==
   \/ /\ Len(hist) >= 1 /\ Len(hist) <= MaxOps /\ Len(convs) = 1
      /\ \E r \in ArgPool, cs \in BOOLEAN, mg \in BOOLEAN : AAdd(1, r, cs, mg, "record")
 MCSpec == Init /\ [][MCNext]_vars
-MCView == <<convs, last, IF sigs = <<>> THEN <<>> ELSE sigs[Len(sigs)]>>     \* only the LAST signature: histories must not multiply states
+MCView == <<convs, last, Len(hist), IF sigs = <<>> THEN <<>> ELSE sigs[Len(sigs)]>>     \* only the LAST signature (histories must not multiply states), but the LENGTH of the history: it decides what is enabled
 
 Inv_C05 == \A c \in Live : P_C05_inv(c)
 Inv_C01 == \A c \in Live : LET A(m, md, x) == SpecA(c, m, md, x) IN \A s \in Probes : P_C01(c, s, A)
